@@ -16,8 +16,11 @@ SPEC = {
         "segment -- `*`, `?`, `[class]`, literals inside one component, `**` = whole components -- whenever none of the four "
         "matcher defects applies), C21_builtin_exact, C21_regex_exact, C21_returned_iff (one include returns exactly the walked "
         "names the matcher accepts that are not in a recorded sub-package, not hidden by base name, not excluded), "
-        "C21_subpackage_componentwise (sub-package exclusion is by whole path components). Not proved, covered by "
-        "correspondence only: that the walk records exactly the package's entries (walkDir vs specT), the parsers "
+        "C21_subpackage_componentwise (sub-package exclusion is by whole path components), C21_walk_exact_partial (on benign "
+        "trees -- no plz-out name below the top level of the root package, no hidden directory unless hidden=True -- the WalkDir "
+        "callback with its SkipDir cuts, isInDirectories and isHidden leave exactly the package's owned, visible entries, "
+        "symlinks in the symlink bucket; so nothing inside a sub-package or plz-out is ever returned and nothing owned is lost), "
+        "C21_spec_is_selection. Not proved, covered by correspondence only: the parsers "
         "(string-level ReplaceAll chain / regexp parser vs the parsed-pattern denotation; cross-checked by the driver on "
         "every case and by `decide` examples), exclude semantics end to end."),
     "technique": "Lean 4 theorems over an executable model (walk, filepath.Match fragment, ReplaceAll chain interpreted from extracted facts, regexp-fragment parser and matcher) + differential correspondence on real directory trees + segment-wise reference oracle",
